@@ -1177,6 +1177,12 @@ func (app *App) disableSemiSyncOnSlaves(becomeInactive, becomeDataLag []string) 
 }
 
 func (app *App) enableSemiSyncOnSlave(host string, slaveState, masterState *nodestate.NodeState) error {
+	if masterState.MasterState == nil || slaveState.SlaveState == nil {
+		// the master has a replication channel of its own, or a state was not collected completely
+		err := fmt.Errorf("incomplete state of %s or of the master, cannot compare their GTIDs", host)
+		app.logger.Error().Err(err).Msgf("failed to enable semi_sync_slave on %s", host)
+		return err
+	}
 	node := app.cluster.Get(host)
 	err := node.SemiSyncSetSlave()
 	if err != nil {
